@@ -199,7 +199,7 @@ def gen_description(rng, force=None, hostile=True, child_types=None):
         if cands:
             v = rng.choice(cands)
             base = rng.choice(["Server", "Client", "Workstation", "X"])
-            if base + "-optional" not in [x["uid"] for x in variants]:
+            if base + "-optional" not in [x["uid"] for x in iter_nodes(variants)]:
                 v["id"], v["uid"], v["type"] = "optional", base + "-optional", "optional"
     if force == "dashed-top-variant":
         cands = [v for v in variants if not v["children"] and "-" not in v["uid"]]
@@ -209,7 +209,8 @@ def gen_description(rng, force=None, hostile=True, child_types=None):
         v = cands[0]
         a = rng.choice(["Server", "Workstation", "Q"])
         b = rng.choice(["Tools", "Extras", "Z"])
-        v["id"], v["uid"], v["type"] = a + b, a + "-" + b, "variant"
+        if a + "-" + b not in [x["uid"] for x in iter_nodes(variants)] and a + b not in [x["uid"] for x in variants]:
+            v["id"], v["uid"], v["type"] = a + b, a + "-" + b, "variant"
     if force == "paths-all":
         v = rng.choice(list(iter_nodes(variants)))
         v["paths"] = dict((k, tpath(rng, hostile)) for k in domains.TREE_PATH_KINDS)
